@@ -527,6 +527,7 @@ def run(ctx):
     ctx.assumptions += [
         "iterables are well behaved: iterating yields the same items once, exhausted iterators stay exhausted, no item is the `missing` sentinel",
         "items are compared by value in changed() (modelled as N)",
+        "a loop filter is a function of the item alone: a test whose outcome depends on state the body changes is evaluated when the look-ahead reaches the item (documented: look-ahead attributes advance the iterable early)",
         "len(iterable), when the object has one, is the number of items a full iteration yields (sized sequences); objects whose len() means 'remaining' or counts something else are outside the statement's classes",
     ]
     ctx.proof("C07")
@@ -782,7 +783,9 @@ def run(ctx):
             ctx.validated()
 
     # ---- recursive loops
-    rsrc = ("{% for n in forest recursive %}{{ n.l }}:{{ loop.depth0 }}/{{ loop.depth }},"
+    # every level also reports loop.length and loop.revindex: the number of siblings, whether the level's iterable is
+    # handed to the loop as a sized list (outermost and nested levels, sync and async since /repo a48aab6) or not
+    rsrc = ("{% for n in forest recursive %}{{ n.l }}:{{ loop.depth0 }}/{{ loop.depth }}/{{ loop.length }}/{{ loop.revindex + loop.index0 }},"
             "{{ loop(n.c) }}{% endfor %}")
     fcases = []
     for _ in range(ctx.size(150, 1500)):
@@ -794,6 +797,13 @@ def run(ctx):
         src_j = rsrc.replace("{% endfor %}", "{% continue %}{% endfor %}") if j % 3 == 0 else rsrc
         case = {"via": "recursive/" + mode, "forest": forest_src(f), "template": src_j}
         try:
+            siblings = {}
+
+            def count(fs):
+                for lab_, cs_ in fs:
+                    siblings[lab_] = len(fs)
+                    count(cs_)
+            count(f)
             t = (lc_envs if j % 3 == 0 else envs)[mode].from_string(src_j)
             data = forest_data(f)
             real = asyncio.run(t.render_async(forest=data)) if mode == "async" else t.render(forest=data)
@@ -803,9 +813,11 @@ def run(ctx):
                 if not part:
                     continue
                 lab, dd = part.split(":")
-                a, b = dd.split("/")
+                a, b, ln, ln2 = dd.split("/")
                 if int(b) != int(a) + 1:
                     bad = f"depth {b} != depth0 {a} + 1"
+                if int(ln) != siblings.get(int(lab)) or int(ln2) != int(ln):
+                    bad = f"node {lab}: loop.length {ln} / revindex+index0 {ln2}, the level has {siblings.get(int(lab))} items"
                 pairs.append(f"{lab}:{a}")
             real = ",".join(pairs)
         except Exception as e:  # noqa
